@@ -5,6 +5,7 @@ from sklearn.base import BaseEstimator, RegressorMixin, ClassifierMixin, clone
 from sklearn.tree import DecisionTreeRegressor, DecisionTreeClassifier
 from sklearn.linear_model import LinearRegression, LogisticRegression
 from sklearn.preprocessing import KBinsDiscretizer
+from sklearn.utils import check_random_state
 from sklearn.utils._joblib import Parallel, delayed
 
 try:
@@ -250,16 +251,20 @@ class PiecewiseEstimator(BaseEstimator):
             else len(set(self.mean_estimator_.classes_))
         )
 
-        if hasattr(self, "random_state") and self.random_state is not None:
-            rnd = numpy.random.RandomState(self.random_state)
+        if nb_classes is not None:
+            # one generator per bucket, drawn in order: the examples borrowed for
+            # missing classes depend neither on n_jobs nor on OS entropy
+            rnd = check_random_state(getattr(self, "random_state", None))
+            seeds = rnd.randint(0, numpy.iinfo(numpy.int32).max, size=len(estimators))
+            rnds = [numpy.random.RandomState(s) for s in seeds]
         else:
-            rnd = None
+            rnds = [None for _ in estimators]
 
         self.estimators_ = Parallel(
             n_jobs=self.n_jobs, verbose=verbose, prefer="threads"
         )(
             delayed(_fit_piecewise_estimator)(
-                i, estimators[i], X, y, sample_weight, association, nb_classes, rnd
+                i, estimators[i], X, y, sample_weight, association, nb_classes, rnds[i]
             )
             for i in loop
         )
